@@ -1,5 +1,5 @@
 (* SizeX_driver.ml - reads the C17 case file, builds the trie with the extracted
-   model (default options, no values), prints the Slim message of
+   model (the raw option spelling of the case through Model.normalize, no values), prints the Slim message of
    Size.encode_trie field by field.  Parsing and printing only. *)
 open Sizemodel
 
@@ -92,18 +92,21 @@ let run (inp : in_channel) (out : out_channel) =
   let prefix = ref [] in
   let cid = ref "" in
   let buf = Buffer.create 65536 in
-  let ropt = { r_dedup = None; r_inner = None; r_leaf = None; r_complete = None } in
+  let ropt = ref { r_dedup = None; r_inner = None; r_leaf = None; r_complete = None } in
+  let optbool s = match s with "-" -> None | "1" -> Some true | "0" -> Some false | _ -> failwith "optbool" in
   (try
      while true do
        let line = input_line inp in
        match split_ws line with
-       | "T" :: id :: _ -> cid := id; keys := []; prefix := []
+       | "T" :: id :: d :: i :: l :: c :: _ ->
+         cid := id; keys := []; prefix := [];
+         ropt := { r_dedup = optbool d; r_inner = optbool i; r_leaf = optbool l; r_complete = optbool c }
        | "P" :: p :: _ -> prefix := bytes_of_hex p
        | "K" :: k :: _ -> keys := app !prefix (bytes_of_hex k) :: !keys
        | "E" :: _ ->
          Buffer.clear buf;
          Printf.bprintf buf "C %s\n" !cid;
-         (match build (normalize ropt) (List.rev !keys) None with
+         (match build (normalize !ropt) (List.rev !keys) None with
           | Err e -> Printf.bprintf buf "B %s\n" (err_str e)
           | Ok t ->
             let m = encode_trie t in
